@@ -145,9 +145,9 @@ func (g *gen) multiTxn() {
 			ops = append(ops, tKVSet(hx.Pick(g.r, []string{"a", "b"}), hx.Pick(g.r, kvVals), uint64(g.r.Intn(2))))
 		case 3:
 			n := hx.Pick(g.r, []string{"n1", "n2"})
-			ops = append(ops, tNodeCas(n, hx.Pick(g.r, addrs), g.pickCidx(cl, readNode(n)(g.ws.store()), "node/"+n)))
+			ops = append(ops, tNodeCas(n, hx.Pick(g.r, addrs), hx.Pick(g.r, nodeIDs), g.pickCidx(cl, readNode(n)(g.ws.store()), "node/"+n)))
 		case 4:
-			ops = append(ops, tNodeSet(hx.Pick(g.r, []string{"n1", "n2"}), hx.Pick(g.r, addrs)))
+			ops = append(ops, tNodeSet(hx.Pick(g.r, []string{"n1", "n2"}), hx.Pick(g.r, addrs), hx.Pick(g.r, nodeIDs)))
 		case 5:
 			n := hx.Pick(g.r, []string{"n1", "n2"})
 			ops = append(ops, tSvcCas(n, "web", hx.Pick(g.r, ports), g.pickCidx(cl, readSvc(n, "web")(g.ws.store()), "svc/"+n+"/web")))
@@ -158,7 +158,7 @@ func (g *gen) multiTxn() {
 			ops = append(ops, tChkCas(n, "c1", hx.Pick(g.r, []string{"", "web"}), hx.Pick(g.r, outs), g.pickCidx(cl, readChk(n, "c1")(g.ws.store()), "chk/"+n+"/c1")))
 		case 8:
 			n := hx.Pick(g.r, []string{"n1", "n2"})
-			ops = append(ops, tNodeDelCas(n, g.pickCidx(cl, readNode(n)(g.ws.store()), "node/"+n)))
+			ops = append(ops, tNodeDelCas(n, hx.Pick(g.r, nodeIDs), g.pickCidx(cl, readNode(n)(g.ws.store()), "node/"+n)))
 		default:
 			n := hx.Pick(g.r, []string{"n1", "n2"})
 			ops = append(ops, tSvcDelCas(n, "web", g.pickCidx(cl, readSvc(n, "web")(g.ws.store()), "svc/"+n+"/web")))
@@ -211,6 +211,7 @@ func systematic(rounds int) {
 				g.finish("systematic-missing-prerequisite")
 			}
 		}
+		nodeIDMatrix(fork)
 		// roots, composite and feature gates have their own enumerations
 		for _, pre := range []string{"absent", "present", "rewritten"} {
 			for _, class := range cidxClasses {
@@ -248,6 +249,68 @@ func systematic(rounds int) {
 						g.fgPre(pre)
 						g.featureGate(pc, sc, shape[0], shape[1])
 						g.finish("systematic-featuregate")
+					}
+				}
+			}
+		}
+	}
+}
+
+// nodeIDMatrix: node verbs carrying no / the own / another registration's / an unknown node ID,
+// against a target name that is absent, registered without ID or registered with an ID, with
+// and without a second registration and a Serf health check defending the name.
+func nodeIDMatrix(fork func() *hx.RNG) {
+	idA, idB, idC := nodeIDs[1], nodeIDs[2], nodeIDs[3]
+	for _, target := range []string{"absent", "no-id", "with-id"} {
+		for _, other := range []bool{false, true} {
+			for _, healthy := range []bool{false, true} {
+				if healthy && target == "absent" {
+					continue
+				}
+				for _, opID := range []string{"", idA, idB, idC} {
+					for _, class := range []string{"zero", "current", "stale", "future"} {
+						for _, verb := range []string{"cas", "cas", "delete-cas", "set"} {
+							g := newGen(fork())
+							switch target {
+							case "no-id":
+								g.exec(txnCmd(tNodeSet("n1", addrs[0], "")))
+							case "with-id":
+								g.exec(txnCmd(tNodeSet("n1", addrs[0], idA)))
+							}
+							g.remember("node/n1", readNode("n1"))
+							if target != "absent" && g.r.Bool() { // give the stale class an earlier index
+								g.exec(txnCmd(tNodeSet("n1", addrs[1], map[string]string{"no-id": "", "with-id": idA}[target])))
+								g.remember("node/n1", readNode("n1"))
+							}
+							if other {
+								g.exec(txnCmd(tNodeSet("n2", addrs[1], idB)))
+								if g.r.Bool() {
+									g.exec(txnCmd(tSvcSet("n2", "web", ports[0]))) // something for a rename to cascade over
+								}
+							}
+							if healthy {
+								g.exec(txnCmd(tChkSet("n1", "serfHealth", "", "ok")))
+							}
+							run.Tag(fmt.Sprintf("nodeid-matrix:target=%s,other=%v,healthy=%v", target, other, healthy))
+							d := nodeDrivers("n1")
+							cur := readNode("n1")(g.ws.store())
+							cidx := g.pickCidx(class, cur, "node/n1")
+							content := g.r.Intn(2)
+							for j, id := range nodeIDs {
+								if id == opID {
+									content += 2 * j
+								}
+							}
+							switch verb {
+							case "cas":
+								g.exec(d[0].cas(content, cidx))
+							case "delete-cas":
+								g.exec(d[1].cas(content, cidx))
+							default:
+								g.exec(d[0].set(content))
+							}
+							g.finish("systematic-node-id")
+						}
 					}
 				}
 			}
@@ -341,6 +404,7 @@ func history(r *hx.RNG, length int) {
 
 func main() {
 	run = hx.Start()
+	seedRNG = run.RNG.Fork(424242)
 	run.Rule = "one case = a fresh pair of worlds (Store methods / FSM raft commands) plus a history of commands; distinct by the full list of protocol lines; non-trivial = at least one conditional write was applied"
 	systematic(run.Scale(1, 2))
 	n := run.Scale(150, 1200)
